@@ -31,5 +31,11 @@ Universe == [patterns |-> SetToSeq(Patterns), listings |-> SetToSeq(Listings)]
 CaseItems == { PIns(m, LitOps(o)) : m \in {"A", "a"}, o \in {<<>>, <<"X">>, <<"x">>} }
 CasePatterns == { PAnd(s) : s \in SeqsBetween(CaseItems, 1, 2) }
 CaseListings == ListingsOver({ <<m, o>> : m \in {"a", "A"}, o \in {<<>>, <<"x">>, <<"X">>} }, 0, 2)
+\* operand names that are all digits (written quoted, or unquoted as YAML integers): literal text like any other
+NumItems == { PIns("a", <<OLit(n)>>) : n \in {"16", "0", "401139"} } \cup { PIns("a", <<OLit("x"), OLit("16")>>), PIns("b", <<>>) }
+NumPatterns == { PAnd(s) : s \in SeqsBetween(NumItems, 1, 2) }
+NumListings == ListingsOver({ <<"a", <<o>> >> : o \in {"16", "0x10", "0", "0x0", "401139", "0x61e33"} }
+                            \cup { <<"a", <<"x", "16">> >>, <<"a", <<"x", "0x10">> >>, <<"b", <<>> >> }, 0, 2)
+UniverseNum == [patterns |-> SetToSeq(NumPatterns), listings |-> SetToSeq(NumListings)]
 UniverseCase == [patterns |-> SetToSeq(CasePatterns), listings |-> SetToSeq(CaseListings)]
 =============================================================================
